@@ -14,6 +14,7 @@ import (
 	"sort"
 	"strings"
 	"sync"
+	"time"
 	"unicode/utf8"
 
 	"google.golang.org/protobuf/encoding/protowire"
@@ -271,6 +272,11 @@ func (a *acc) codecBytes(b []byte) {
 type seen struct {
 	md  map[string]string
 	has bool
+	// what the same handler read again, from the context it had kept and from the stream, once
+	// the call was over on the client side (the handler is still running then)
+	late      map[string]string
+	lateFresh map[string]string
+	lateRead  bool
 }
 
 func e2e(id string, seed uint64) runner.Result {
@@ -292,18 +298,45 @@ func e2e(id string, seed uint64) runner.Result {
 		for k, v := range md {
 			cp[k] = v
 		}
-		mu.Lock()
-		got[hd.Tag] = seen{cp, ok}
-		mu.Unlock()
+		ctx := stream.Context()
 		out := payload.Make(hd.Tag, 1, 0, 0, 5)
-		return stream.MsgSend(&out, payload.Enc{})
+		serr := stream.MsgSend(&out, payload.Enc{})
+		sn := seen{md: cp, has: ok}
+		if serr == nil {
+			// the client takes the answer and closes the call; the handler outlives that
+			t := time.NewTimer(rig.Watchdog)
+			select {
+			case <-ctx.Done():
+				l1, _ := drpcmetadata.Get(ctx)
+				l2, _ := drpcmetadata.Get(stream.Context())
+				sn.late, sn.lateFresh, sn.lateRead = map[string]string{}, map[string]string{}, true
+				for k, v := range l1 {
+					sn.late[k] = v
+				}
+				for k, v := range l2 {
+					sn.lateFresh[k] = v
+				}
+			case <-t.C:
+			}
+			t.Stop()
+		}
+		mu.Lock()
+		got[hd.Tag] = sn
+		mu.Unlock()
+		return serr
 	})
 	opts := drpcmanager.Options{SoftCancel: soft}
+	sopts := opts
+	// a server that gives up on idle connections (the limit is far away): not a different server otherwise
+	idle := r.Intn(2) == 0
+	if idle {
+		sopts.InactivityTimeout = time.Hour
+	}
 	chunk := simnet.Chunker(simnet.ChunkAll{})
 	if r.Intn(2) == 0 {
 		chunk = &simnet.ChunkRand{K: 1 + r.Intn(30), State: seed}
 	}
-	rg := rig.New(rig.Config{Net: simnet.Opts{Cap: []int{-1, 0, 64}[r.Intn(3)], ChunkB: chunk}, Client: opts, Server: opts}, h)
+	rg := rig.New(rig.Config{Net: simnet.Opts{Cap: []int{-1, 0, 64}[r.Intn(3)], ChunkB: chunk}, Client: opts, Server: sopts}, h)
 	defer rg.Teardown()
 
 	ncalls := 3 + r.Intn(6)
@@ -435,6 +468,8 @@ func e2e(id string, seed uint64) runner.Result {
 			fails = append(fails, fmt.Sprintf("call %d had no metadata but its handler saw %s (leaked from another call)", tag, summarize(s.md)))
 		} else if md != nil && !eqMap(md, s.md) {
 			fails = append(fails, fmt.Sprintf("call %d attached %s, handler saw %s", tag, summarize(md), summarize(s.md)))
+		} else if s.lateRead && (!eqMap(s.md, s.late) || !eqMap(s.md, s.lateFresh)) {
+			fails = append(fails, fmt.Sprintf("call %d: its handler saw %s when it started, and after the client had closed the call it read %s from the same context and %s from stream.Context()", tag, summarize(s.md), summarize(s.late), summarize(s.lateFresh)))
 		}
 	}
 	if !eqMap(shared, sharedCopy) {
@@ -445,7 +480,7 @@ func e2e(id string, seed uint64) runner.Result {
 	}
 	res := runner.Hold(id, strings.Join(desc, " "), true)
 	res.Events = int64(ncalls)
-	res.Sample = map[string]interface{}{"calls": desc, "soft_cancel": soft}
+	res.Sample = map[string]interface{}{"calls": desc, "soft_cancel": soft, "server_inactivity_timeout": idle}
 	return res
 }
 
@@ -467,7 +502,7 @@ func abandoned(id string, seed uint64) runner.Result {
 			cp[k] = v
 		}
 		mu.Lock()
-		got[hd.Tag] = seen{cp, ok}
+		got[hd.Tag] = seen{md: cp, has: ok}
 		mu.Unlock()
 		return nil
 	})
@@ -683,7 +718,7 @@ func main() {
 	runner.Main(runner.Check{
 		Property: "C11",
 		Level:    "exploration",
-		Rule:     "codec cases: one seeded map (empty strings, lengths at varint boundaries 127/128/16383/16384/2^21, binary strings, 0..50 entries) checked for Decode(Encode(m))==m, decodability by an independent protowire decoder and by released v0.0.17, decodability of v0.0.17's and the canonical encoding; one byte string (all <=2 bytes, all 3..6-byte strings starting with 0x0a over a 10-byte alphabet, mutated valid encodings incl. reordered entry fields and unknown fields) checked for no panic and agreement with the reference decoder whenever Decode returns a map. End-to-end cases: one seeded sequence of 3-8 unary/streaming calls with and without metadata on one real connection (both cancel modes, several transports); wire-level sequences with metadata packets never followed by their invoke. Batches count inputs; e2e cases are distinct by call sequence.",
+		Rule:     "codec cases: one seeded map (empty strings, lengths at varint boundaries 127/128/16383/16384/2^21, binary strings, 0..50 entries) checked for Decode(Encode(m))==m, decodability by an independent protowire decoder and by released v0.0.17, decodability of v0.0.17's and the canonical encoding; one byte string (all <=2 bytes, all 3..6-byte strings starting with 0x0a over a 10-byte alphabet, mutated valid encodings incl. reordered entry fields and unknown fields) checked for no panic and agreement with the reference decoder whenever Decode returns a map. End-to-end cases: one seeded sequence of 3-8 unary/streaming calls with and without metadata on one real connection (both cancel modes, several transports); wire-level sequences with metadata packets never followed by their invoke. Batches count inputs; e2e cases are distinct by call sequence. In the end-to-end cases every other server has an InactivityTimeout (far away), and every handler reads its metadata a second time, from the context it kept and from stream.Context(), after the client has closed the call: it must read the same pairs as when it started.",
 		Assumptions: []string{
 			"Decode may reject encodings a general protobuf decoder accepts (the statement only requires a map or an error); when it returns a map it must be the map the reference decoder returns",
 			"a call that never reaches its handler is inconclusive here (progress is C06's property)",
